@@ -191,10 +191,6 @@ def LM.Shr {α} (m : LM α) : Prop :=
 def LM.ParentMono {α} (now : Int) (m : LM α) : Prop :=
   ∀ (S : String → Prop) l, ParentsIn S now l → ParentsIn S now (m l).1
 
-/-- tag every value with the name of the location that produced it -/
-def tagged {α} (fn : String → LM α) : String → LM (String × α) :=
-  fun m => LM.bind (fn m) (fun a => LM.pure (m, a))
-
 /-- decide that a finite set of names is parent-closed -/
 def closedB (names : List String) (sys : Sys) (now : Int) : Bool :=
   names.all (fun m => match sys.get? m with
